@@ -564,3 +564,73 @@ func TestC09_ComputeClawback(t *testing.T) {
 }
 
 var _ = sdk.Coins{}
+
+// ---------------------------------------------------------------------------------------------------------
+// AlignSchedules: both lists are re-based on the earlier start without moving any release event
+
+func runC09Align(st *ev.Stats, c C09PairCase) string {
+	st.Eval()
+	fail := func(key, what string) string { return st.Discrepancy(key, what, c) }
+	ea, eb := eventsOf(c.A.Start, c.A.Periods), eventsOf(c.B.Start, c.B.Periods)
+	pa, pb := toPeriods(c.A.Periods), toPeriods(c.B.Periods)
+	start, end := vestingtypes.AlignSchedules(c.A.Start, c.B.Start, pa, pb)
+	if start != min64(c.A.Start, c.B.Start) {
+		return fail("align:start", fmt.Sprintf("start %d, want %d", start, min64(c.A.Start, c.B.Start)))
+	}
+	// (an empty list ends at the common start)
+	if want := max64(lastTime(start, ea), lastTime(start, eb)); end != want {
+		return fail("align:end", fmt.Sprintf("end %d, want %d", end, want))
+	}
+	for i, x := range []struct {
+		name string
+		orig []refEvent
+		got  sdkvesting.Periods
+	}{{"A", ea, pa}, {"B", eb, pb}} {
+		_ = i
+		gm, wm := eventMap(eventsOf(start, fromPeriods(x.got))), eventMap(x.orig)
+		if len(gm) != len(wm) {
+			return fail("align:events-moved", fmt.Sprintf("schedule %s: %d distinct release times after alignment, %d before", x.name, len(gm), len(wm)))
+		}
+		for t, w := range wm {
+			if g, ok := gm[t]; !ok || !g.eq(w) {
+				return fail("align:events-moved", fmt.Sprintf("schedule %s: release at t=%d is %v after alignment, was %s", x.name, t, g, w))
+			}
+		}
+		total := refToSDK(totalOf(x.orig))
+		for _, t := range probeTimes([]int64{c.A.Start, c.B.Start, end}, ea, eb) {
+			if end == start {
+				break // all events at the common start: "zero up to the start" and "total from the end on" collide
+			}
+			if g, w := vestingtypes.ReadSchedule(start, end, x.got, total, t), stepAtOrTotal(start, end, x.orig, totalOf(x.orig), t); !eqSDK(w, g) {
+				return fail("align:read", fmt.Sprintf("schedule %s read at t=%d after alignment: %s, before: %s", x.name, t, g, w))
+			}
+		}
+	}
+	if c.A.Start != c.B.Start && len(ea) > 0 && len(eb) > 0 {
+		if c.A.Start > c.B.Start {
+			st.Class("first-starts-later")
+		} else {
+			st.Class("second-starts-later")
+		}
+		st.NonTrivial(c)
+	}
+	return ""
+}
+
+func init() {
+	replayers["TestC09_Align"] = func(st *ev.Stats, raw json.RawMessage) string {
+		var c C09PairCase
+		must(json.Unmarshal(raw, &c))
+		return runC09Align(st, c)
+	}
+}
+
+func TestC09_Align(t *testing.T) {
+	st := ev.New("C09", "TestC09_Align", "pair of period lists with their own start times re-based with AlignSchedules; non-trivial = both non-empty and different start times")
+	runCorpus(t, st)
+	runRapid(t, st, 4000, 300000, func(rt *rapid.T) {
+		if msg := runC09Align(st, genC09Pair(rt)); msg != "" {
+			rt.Fatalf("%s", msg)
+		}
+	})
+}
